@@ -339,7 +339,27 @@ fn node_family(rng: &mut Rng, _tier: Tier) -> Scenario {
     }
     // normal traffic during the attack
     let ih = rng.id20();
-    sc.at(attack_from + rng.below(attack_len), Op::Search { node: 0, ih, announce: true });
+    // in one run of four the search is for a popular info-hash (legal, large get_peers answers:
+    // hundreds of values in all) and the application holds its stream without reading it until long
+    // after the liveness phase: the node must keep serving meanwhile
+    if rng.chance(1, 4) {
+        while sc.world.stubs.len() < 4 {
+            let i = sc.world.stubs.len();
+            let s = StubCfg::honest(stub_addr(v6, i), rng.id20());
+            for r in sc.reals.iter_mut() {
+                r.nodes.push(s.addr);
+            }
+            sc.world.stubs.push(s);
+        }
+        let per = if v6 { 50 } else { 120 };
+        for (i, s) in sc.world.stubs.iter_mut().enumerate() {
+            s.peers.push((ih, (0..per).map(|k| addr(v6, 4, 1 + i as u32 * 200 + k, 9000)).collect()));
+        }
+        sc.at(attack_from + rng.below(attack_len), Op::SearchX { node: 0, ih, announce: true, mode: crate::exec::Consume::PollAfterMs(attack_len + 60_000) });
+        sc.params.insert("neglected_stream".into(), 1);
+    } else {
+        sc.at(attack_from + rng.below(attack_len), Op::Search { node: 0, ih, announce: true });
+    }
     if rng.chance(1, 2) {
         sc.at(attack_from + rng.below(attack_len), Op::RecvErr { node: 0, count: rng.range(1, 3) as u32 });
     }
@@ -476,11 +496,14 @@ impl Property for C14 {
         v.nontrivial = hostile > 0;
         v.hit_n("hostile_datagrams", hostile);
         v.hit_n("liveness_pings_ok", pings_ok as u64);
+        if sc.param("neglected_stream") != 0 {
+            v.hit("neglected_stream_of_a_popular_search");
+        }
         v.sample = json!({"family": "node", "nodes": n, "hostile_datagrams": hostile, "corrupted_in_flight": run.stats.get("fault_corrupt"), "alloc_peak": peak, "pings_ok": pings_ok, "samples_ok": samples_ok, "searches_done": searches_done});
         v
     }
     fn rule(&self) -> &'static str {
-        "indices = 2 mod 4: systematic single-mutation enumeration of one valid message (every truncation offset, grown length prefix at every digit, every byte replaced by each structural byte); other even indices: 200..400 structure-aware hostile byte strings (<=1500 B) per case through the public Message::decode on a 2 MiB stack under a counting allocator; odd indices: 1..3 real serving nodes + stubs under normal traffic, 20..400 hostile datagrams from several addresses plus in-flight corruption/duplication/recv errors, then a fault-free liveness phase (ping, get_state, load_contacts, local_addr, search). non-trivial = at least one input rejected (decode) / at least one hostile datagram delivered (node); distinct = distinct order digests"
+        "indices = 2 mod 4: systematic single-mutation enumeration of one valid message (every truncation offset, grown length prefix at every digit, every byte replaced by each structural byte); other even indices: 200..400 structure-aware hostile byte strings (<=1500 B) per case through the public Message::decode on a 2 MiB stack under a counting allocator; odd indices: 1..3 real serving nodes + stubs under normal traffic, 20..400 hostile datagrams from several addresses plus in-flight corruption/duplication/recv errors (in 1 run of 4 the search running meanwhile is for a popular info-hash - hundreds of values in large, legal answers - and its stream is held unread until long after), then a fault-free liveness phase (ping, get_state, load_contacts, local_addr, search). non-trivial = at least one input rejected (decode) / at least one hostile datagram delivered (node); distinct = distinct order digests"
     }
     fn assumptions(&self) -> Vec<&'static str> {
         vec![
@@ -489,6 +512,6 @@ impl Property for C14 {
         ]
     }
     fn required_reach(&self) -> Vec<&'static str> {
-        vec!["hostile_datagrams", "decode_err", "liveness_pings_ok", "systematic_single_mutation_inputs"]
+        vec!["hostile_datagrams", "decode_err", "liveness_pings_ok", "systematic_single_mutation_inputs", "neglected_stream_of_a_popular_search"]
     }
 }
